@@ -29,7 +29,7 @@ RULE = ('scenarios {append, iterappend of 3 chunks, iterappend whose iterable ra
         'file that differs between consecutive states (emptied; old + 1 byte / half / all-but-one of the appended tail; '
         'prefix of rewritten text at 1 / half / len-1; new text over the tail of the old; thorough: every cut point up to 64 '
         'bytes, ~48 strided cuts beyond). Each state is materialised and opened with Array / '
-        'RaggedArray and dict(metadata): a successful open must show a legitimate state. Non-trivial = a state that differs '
+        'RaggedArray in mode r and (on a second copy) in mode r+, and dict(metadata): a successful open must show a legitimate state. Non-trivial = a state that differs '
         'from both the initial and the final state; distinct by content hash of the state')
 EXHAUSTIVE = True
 EXHAUSTIVE_PART = 'all line-level on-disk states of each scenario; the listed torn variants of each changed file'
@@ -273,7 +273,7 @@ def run_case(case, env):
         first, last = rec.states[0], rec.states[-1]
         sigs = set()
         opener = D.RaggedArray if ragged else D.Array
-        for sk, name, s in states:
+        for sk, name, s, omode in [(a_, b_, c_, m_) for (a_, b_, c_) in states for m_ in ('r', 'r+')]:
             w = env.scratch.new('m')
             try:
                 target = w / 'arr'
@@ -281,8 +281,9 @@ def run_case(case, env):
                 if s != first and s != last:
                     import hashlib
                     sigs.add(hashlib.sha1(repr(sorted((k, v[0], v[1]) for k, v in s.items())).encode()).hexdigest())
+                res.count(f'mon.opened_mode_{omode}')
                 try:
-                    o = opener(target)
+                    o = opener(target, accessmode=omode)
                     if ragged:
                         got = [np.asarray(o[k]) for k in range(len(o))]
                     else:
@@ -294,7 +295,7 @@ def run_case(case, env):
                 if not ok:
                     desc = f'{len(got)} subarrays' if ragged else f'shape {got.shape}'
                     res.fail(f'illegitimate-open:{op}:{sk}:{re.sub(r'[0-9]+of[0-9]+', 'N', name.split(':')[-1]) if sk == 'torn' else 'between-lines'}',
-                             f'{kind} {start} {op}: crash state {name} opens successfully showing {desc}, which is neither the '
+                             f'{kind} {start} {op}: crash state {name} opens successfully (mode {omode}) showing {desc}, which is neither the '
                              f'state before, after, nor original + whole chunks', state=name, **case)
                     break
                 try:
@@ -312,7 +313,7 @@ def run_case(case, env):
                 env.scratch.drop(w)
         res.sig = sigs
         res.nontrivial = bool(sigs)
-        res.evals = len(states)
+        res.evals = 2 * len(states)
         res.dim('scenario', f'{kind}:{start}:{op}')
         res.dim('call_outcome', type(raised).__name__ if raised else 'returned')
         return res
